@@ -58,9 +58,13 @@ func C20(p *core.Program, r *core.Report) {
 	cw := mustFunc(p, r, "F2", "(*"+extractorPkg+".ContentExtractor).createWebDocumentInfoFromPage")
 	if cw != nil {
 		c := core.NewCanon(p)
-		nb := core.Calls(cw, func(ci ssa.CallInstruction) bool { return core.IsCallTo(ci, "mod/internal/webdoc.NewWebDocumentBuilder") })
+		nb := core.Calls(cw, func(ci ssa.CallInstruction) bool {
+			return core.IsCallTo(ci, "mod/internal/webdoc.NewWebDocumentBuilder")
+		})
 		nc := core.Calls(cw, func(ci ssa.CallInstruction) bool { return core.IsCallTo(ci, converterPkg+".NewDomConverter") })
-		cv := core.Calls(cw, func(ci ssa.CallInstruction) bool { return core.IsCallTo(ci, "(*"+converterPkg+".DomConverter).Convert") })
+		cv := core.Calls(cw, func(ci ssa.CallInstruction) bool {
+			return core.IsCallTo(ci, "(*"+converterPkg+".DomConverter).Convert")
+		})
 		r.Add("F2", "each pass creates its own document builder", p.Pos(cw.Pos()), len(nb) == 1, fmt.Sprintf("%d NewWebDocumentBuilder calls", len(nb)))
 		r.Add("F2", "each pass creates its own converter", p.Pos(cw.Pos()), len(nc) == 1, fmt.Sprintf("%d NewDomConverter calls", len(nc)))
 		if len(nc) == 1 && len(nb) == 1 && len(cv) == 1 {
